@@ -47,6 +47,23 @@ type c04Case struct {
 	BannerLen int       `json:"banner_len"` // the covert speaks first: it sends this many bytes on accept
 	BannerSeed int64    `json:"banner_seed"`
 	Others    []vfOther `json:"others"`
+	PadLen    int       `json:"pad_len"` // obfs4, > 0: a hand-built valid client handshake with exactly this padding length (no data follows)
+	Peer      string    `json:"peer"`    // the address the accepted socket reports for the client: "" / v4 / v4mapped / v6 / zoned (link-local IPv6 with a zone)
+}
+
+// the *net.TCPAddr an accepted socket would report for a client of that kind
+func c04Peer(kind string) net.Addr {
+	switch kind {
+	case "v4mapped":
+		return &net.TCPAddr{IP: net.ParseIP("::ffff:198.51.100.9"), Port: 40124}
+	case "v6":
+		return &net.TCPAddr{IP: net.ParseIP("2001:db8:77::9"), Port: 40125}
+	case "zoned":
+		return &net.TCPAddr{IP: net.ParseIP("fe80::1c2:3ff:fe04:5"), Port: 40126, Zone: "eth0"}
+	case "v4short":
+		return &net.TCPAddr{IP: net.IPv4(198, 51, 100, 8).To4(), Port: 40127}
+	}
+	return vfClientAddr
 }
 
 type c04Res struct {
@@ -77,6 +94,8 @@ type c04Res struct {
 	Swept       int      `json:"swept"`        // -1 no sweep; 1 the registration was gone after the sweep under the open tunnel; 0 it survived
 	V6       bool        `json:"v6"`
 	RelayFirst *vfBytes  `json:"relay_first"`
+	HsReply  int         `json:"hs_reply"`  // hand-built obfs4 flight: bytes the station answered with (its server handshake)
+	FlightLen int        `json:"flight_len"`
 	EarlyAnswered bool   `json:"early_answered"` // banner / echo of the early data arrived before the client sent anything more
 	Ms       int64       `json:"ms"`
 }
@@ -92,9 +111,10 @@ type c04Conn struct {
 	seq        *int64
 	relayStart int64
 	relayFirst *vfBytes // first non-empty Read the relay made on the connection it was handed
+	peer       net.Addr
 }
 
-func (c *c04Conn) RemoteAddr() net.Addr { return vfClientAddr }
+func (c *c04Conn) RemoteAddr() net.Addr { return c.peer }
 func (c *c04Conn) Read(p []byte) (int, error) {
 	n, err := c.Conn.Read(p)
 	c.mu.Lock()
@@ -313,7 +333,7 @@ func c04Run(s *vfStation, c c04Case) (res c04Res) {
 	res.TS = s.wrappingNames()
 
 	cli, srv := net.Pipe()
-	sc := &c04Conn{Conn: srv, seq: &s.seq}
+	sc := &c04Conn{Conn: srv, seq: &s.seq, peer: c04Peer(c.Peer)}
 	cli.SetDeadline(time.Now().Add(c04Wait() + time.Duration(c.DelayMs*12)*time.Millisecond))
 	hdone := make(chan struct{})
 	go func() {
@@ -329,7 +349,53 @@ func c04Run(s *vfStation, c c04Case) (res c04Res) {
 	var flight []byte
 	delay := time.Duration(c.DelayMs) * time.Millisecond
 
-	if c.Transport == "obfs4" {
+	if c.Transport == "obfs4" && c.PadLen > 0 {
+		// a hand-built valid handshake of a chosen padding length; the client then only reads
+		flight = obfs4.VerifClientFlight(reg, c.PadLen)
+		if flight == nil {
+			res.Err = "hand-built flight: no keys"
+		}
+		var n32 int32
+		rdone := make(chan struct{})
+		go func() {
+			defer close(rdone)
+			tmp := make([]byte, 32768)
+			for {
+				k, err := cli.Read(tmp)
+				atomic.AddInt32(&n32, int32(k))
+				if err != nil {
+					return
+				}
+			}
+		}()
+		prev := 0
+		for _, b := range append(c04Resolve(c.Cuts, len(flight), len(flight)), len(flight)) {
+			if b > prev {
+				if _, err := cli.Write(flight[prev:b]); err != nil {
+					res.Err += " client write: " + err.Error()
+					break
+				}
+				res.Segs = append(res.Segs, b-prev)
+				prev = b
+				if delay > 0 && b < len(flight) {
+					time.Sleep(delay)
+				}
+			}
+		}
+		// wait for the station's server handshake and for the registration to be marked used
+		_, _, smin := obfs4.VerifPadRange()
+		for lim := time.Now().Add(c04Wait()); time.Now().Before(lim); time.Sleep(3 * time.Millisecond) {
+			if int(atomic.LoadInt32(&n32)) >= smin && s.rm.VerifRegStatus(reg) == 1 && s.updatesOf(reg) >= 1 {
+				break
+			}
+		}
+		res.HsReply = int(atomic.LoadInt32(&n32))
+		if res.HsReply < smin {
+			atomic.AddInt32(&c04Failed, 1)
+		}
+		res.Natural = []int{len(flight)}
+		res.EarlyAnswered = true
+	} else if c.Transport == "obfs4" {
 		seg := &c04SegConn{Conn: cli, rawCuts: c.Cuts, delay: delay}
 		oc, err := wrapFn(seg)
 		flight = seg.first
@@ -453,6 +519,7 @@ func c04Run(s *vfStation, c c04Case) (res c04Res) {
 		reply = rbuf
 	}
 	res.Flight = hex.EncodeToString(flight)
+	res.FlightLen = len(flight)
 	// the tunnel is still open: the client has its answers and has not closed yet
 	res.StatusOpen = s.rm.VerifRegStatus(reg)
 	res.UpdatesOpen = s.updatesOf(reg)
@@ -556,6 +623,7 @@ func TestVerifC04(t *testing.T) {
 	out := c04Out{Table: s.table(), Results: make([]c04Res, len(cases)), Obfs4: map[string]int{}}
 	a, b, c, d, e := obfs4.VerifConsts()
 	out.Obfs4["min_handshake"], out.Obfs4["mark_start"], out.Obfs4["max_handshake"], out.Obfs4["mark_len"], out.Obfs4["mac_len"] = a, b, c, d, e
+	out.Obfs4["min_pad"], out.Obfs4["max_pad"], out.Obfs4["server_min"] = obfs4.VerifPadRange()
 	var wg sync.WaitGroup
 	sem := make(chan struct{}, 48)
 	for i := range cases {
